@@ -34,6 +34,8 @@ CONSTANTS UnitNames,    \* subset of DOMAIN Units
           MaxChain,     \* conversions per chain
           ExprOps,      \* subset of {"mul", "div", "add", "sub", "sq", "scale"}
           ExprUnits, ExprVals,   \* unit and value of the second operand of an expression
+          ScaledVals,   \* start values whose expressions are also taken with both operands scaled by 10^e
+          Exps10,       \* the exponents e, written 40 + e
           ImagFactors,  \* k: the quantity a chain starts from is value * (1 + k i) units (0: a real value)
           ComplexVals,  \* the values that are also taken with an imaginary part
           Temps         \* temperatures the Celsius/kelvin machine starts from, written as 300000000 + millionths
@@ -57,6 +59,8 @@ U(v, d) == [v |-> v, d |-> d]
 (* shared with harness/c07.py, which maps each to a real unit expression.     *)
 Units == [
   one     |-> U(ROne, D1),            percent |-> U(<<1, 100>>, D1),     rad   |-> U(ROne, D1),
+  \* plain numbers as "units" of a dimensionless quantity: 1000, the fraction 1/100, the float 0.5
+  thousand |-> U(R(1000), D1),        hundredth |-> U(<<1, 100>>, D1),   half  |-> U(<<1, 2>>, D1),
   aq      |-> U(ROne, A1),            \* a quantity of the separate angle dimension (equivalent to dimensionless)
   m       |-> U(ROne, L1),            km      |-> U(R(1000), L1),        cm    |-> U(<<1, 100>>, L1),
   mm      |-> U(<<1, 1000>>, L1),     kilo_m  |-> U(R(1000), L1),        \* prefixes.kilo * meter
@@ -99,7 +103,7 @@ FromKelvin(k) == k - KOffset
 
 -----------------------------------------------------------------------------
 NoExpr == [op |-> "none"]
-NoTemp == [t0 |-> 0, s0 |-> "none", scale |-> "none", v |-> 0, steps |-> 0]
+NoTemp == [t0 |-> 0, s0 |-> "none", scale |-> "none", v |-> 0, steps |-> 0, sh |-> 0, ops |-> <<>>]
 NoCur  == [n |-> RZero, u |-> "none"]
 NoStart == [val |-> "none", u |-> "none", k |-> 0]
 
@@ -114,7 +118,8 @@ InitChain == /\ mode = "chain"
              /\ err = FALSE /\ expr = NoExpr /\ temp = NoTemp
 InitTemp == /\ mode = "temp"
             /\ \E t \in Temps, s \in {"C", "K"} :
-                  temp = [t0 |-> t - 300000000, s0 |-> s, scale |-> s, v |-> t - 300000000, steps |-> 0]
+                  temp = [t0 |-> t - 300000000, s0 |-> s, scale |-> s, v |-> t - 300000000, steps |-> 0,
+                          sh |-> 0, ops |-> <<>>]
             /\ start = NoStart /\ cur = NoCur /\ chain = <<>> /\ err = FALSE /\ expr = NoExpr
 Init == InitChain \/ InitTemp
 
@@ -149,14 +154,19 @@ Evaluate(op, x, y) ==                      \* the same arithmetic on the SI numb
   CASE op = "mul" -> RMul(x, y) [] op = "div" -> RDiv(x, y) [] op = "add" -> RAdd(x, y)
     [] op = "sub" -> RSub(x, y) [] op = "sq" -> RMul(x, x) [] op = "scale" -> RMul(y, x)
 
-Combine(op, val2, u2) ==
+\* Scaling both operands by a number c scales the value of the expression by c^Degree(op): the harness uses this
+\* with c = 10^e to reach magnitudes (1e-30, 1e30) that 32-bit rationals cannot hold; Homogeneous checks it
+\* with c = 2.
+Degree(op) == CASE op \in {"mul", "sq", "scale"} -> 2 [] op \in {"add", "sub"} -> 1 [] op = "div" -> 0
+Combine(op, val2, u2, e) ==
   /\ mode = "chain" /\ ~err /\ expr = NoExpr /\ Len(chain) = 1 /\ start.k = 0
+  /\ (e # 0 => start.val \in ScaledVals)
   /\ (op = "sq" => val2 = start.val /\ u2 = start.u)          \* the square has one operand
   /\ MulOK(Vals[val2], Units[u2].v)
   /\ LET a == Q0   b == TimesUnit(Vals[val2], Units[u2]) IN
        /\ ExprDefined(op, a, b)
        /\ expr' = [op |-> op, b |-> [val |-> val2, u |-> u2], si |-> Evaluate(op, ToSI(a), ToSI(b)),
-                   d |-> Meaning(op, a, b).d]
+                   d |-> Meaning(op, a, b).d, e |-> e, e10 |-> e * Degree(op)]
   /\ UNCHANGED <<mode, start, cur, chain, err, temp>>
 
 \* the Celsius helper for quantities: n kelvin |-> n - 273.15 degrees Celsius; anything that is not a
@@ -169,17 +179,27 @@ ToCelsius ==
      ELSE Q0.v # RZero /\ expr' = [op |-> "celsius", ok |-> FALSE, c |-> RZero]
   /\ UNCHANGED <<mode, start, cur, chain, err, temp>>
 
+\* One Celsius object is kept throughout a history: its value is converted to kelvin, a kelvin value is
+\* converted back into it, and its value may be changed in place (by ShiftBy) between two conversions - a
+\* conversion always concerns the value the object has now.
+ShiftBy == 10000000                                           \* ten degrees
 TempStep ==
-  /\ mode = "temp" /\ temp.steps < MaxChain + 1
+  /\ mode = "temp" /\ temp.steps < MaxChain + 2
   /\ temp' = IF temp.scale = "C"
-             THEN [temp EXCEPT !.scale = "K", !.v = ToKelvin(temp.v), !.steps = @ + 1]
-             ELSE [temp EXCEPT !.scale = "C", !.v = FromKelvin(temp.v), !.steps = @ + 1]
+             THEN [temp EXCEPT !.scale = "K", !.v = ToKelvin(temp.v), !.steps = @ + 1, !.ops = Append(@, "conv")]
+             ELSE [temp EXCEPT !.scale = "C", !.v = FromKelvin(temp.v), !.steps = @ + 1, !.ops = Append(@, "conv")]
+  /\ UNCHANGED <<mode, start, cur, chain, err, expr>>
+TempShift ==
+  /\ mode = "temp" /\ temp.steps < MaxChain + 2 /\ temp.scale = "C" /\ temp.sh = 0
+  /\ temp.steps >= 1                                         \* the object has been used before
+  /\ temp' = [temp EXCEPT !.v = @ + ShiftBy, !.sh = 1, !.steps = @ + 1, !.ops = Append(@, "shift")]
   /\ UNCHANGED <<mode, start, cur, chain, err, expr>>
 
 Next == \/ \E u2 \in UnitNames : Convert(u2)
-        \/ \E op \in ExprOps, val2 \in ExprVals \cup {start.val}, u2 \in ExprUnits \cup {start.u} : Combine(op, val2, u2)
+        \/ \E op \in ExprOps, val2 \in ExprVals \cup {start.val}, u2 \in ExprUnits \cup {start.u},
+              e \in {x - 40 : x \in Exps10} \cup {0} : Combine(op, val2, u2, e)
         \/ ToCelsius
-        \/ TempStep
+        \/ TempStep \/ TempShift
 
 Spec == Init /\ [][Next]_vars
 
@@ -209,9 +229,16 @@ EvaluationPreservesValue ==
                      /\ expr.d = Meaning(expr.op, Q0, b).d
 \* the Celsius / kelvin helpers are mutual inverses, offset 273.15
 TempInverse == mode = "temp" =>
-  /\ (temp.scale = temp.s0 => temp.v = temp.t0)
-  /\ (temp.scale # temp.s0 => temp.v = IF temp.s0 = "C" THEN temp.t0 + KOffset ELSE temp.t0 - KOffset)
+  /\ (temp.scale = temp.s0 => temp.v = temp.t0 + temp.sh * ShiftBy)
+  /\ (temp.scale # temp.s0 => temp.v = temp.sh * ShiftBy + (IF temp.s0 = "C" THEN temp.t0 + KOffset ELSE temp.t0 - KOffset))
   /\ FromKelvin(ToKelvin(temp.v)) = temp.v /\ ToKelvin(FromKelvin(temp.v)) = temp.v
+Homogeneous ==
+  (expr # NoExpr /\ expr.op # "celsius") =>
+    LET x == ToSI(Q0)   y == ToSI(TimesUnit(Vals[expr.b.val], Units[expr.b.u]))
+        c == IF Degree(expr.op) = 2 THEN R(4) ELSE IF Degree(expr.op) = 1 THEN R(2) ELSE ROne
+    IN  (MulOK(R(2), x) /\ MulOK(R(2), y) /\ MulOK(RMul(R(2), x), RMul(R(2), y)) /\ AddOK(RMul(R(2), x), RMul(R(2), y))
+         /\ MulOK(c, expr.si))
+          => Evaluate(expr.op, RMul(R(2), x), RMul(R(2), y)) = RMul(c, expr.si)
 \* the Celsius helper accepts exactly temperatures and is the inverse of adding the offset
 CelsiusHelper == (expr # NoExpr /\ expr.op = "celsius") =>
   /\ expr.ok = Equiv(Q0.d, K1)
@@ -232,8 +259,9 @@ Emit ==
   /\ (mode = "chain" /\ expr # NoExpr /\ expr.op = "celsius") =>
         PrintT(ToJson([k |-> "celsius", a |-> start, ok |-> expr.ok, c |-> expr.c]))
   /\ (mode = "chain" /\ expr # NoExpr /\ expr.op # "celsius") =>
-        PrintT(ToJson([k |-> "expr", op |-> expr.op, a |-> start, b |-> expr.b, si |-> expr.si, d |-> DimSeq(expr.d)]))
+        PrintT(ToJson([k |-> "expr", op |-> expr.op, a |-> start, b |-> expr.b, si |-> expr.si, d |-> DimSeq(expr.d),
+                       e |-> expr.e, e10 |-> expr.e10]))
   /\ (mode = "temp" /\ temp.steps >= 1) =>
         PrintT(ToJson([k |-> "temp", t0 |-> temp.t0, s0 |-> temp.s0, steps |-> temp.steps, scale |-> temp.scale,
-                       v |-> temp.v]))
+                       v |-> temp.v, ops |-> temp.ops]))
 =============================================================================
